@@ -537,6 +537,13 @@ func (w *world) check(o op, res string, before, after map[string]rec) {
 		w.pred(o, "negative-balance", strings.Join(negs, ","))
 		return
 	}
+	// 1b. the main ledger never exceeds the balance limit (types.MaxTokenBalance)
+	for k, v := range la {
+		if k[0] == 'm' && v.bal.Cmp(big.NewInt(maxBal)) > 0 {
+			w.pred(o, "exceeds-balance-limit", fmt.Sprintf("%s=%s", k, v.bal))
+			return
+		}
+	}
 	// 2. exact intended effect
 	mism := []string{}
 	keys := map[string]struct{}{}
@@ -970,7 +977,7 @@ func main() {
 	p := newPool(r)
 	out.Op("cfg allow "+strings.Join(p.allow, " "), "ok")
 	out.Op("limits", fmt.Sprintf("%d %d", limit, maxBal))
-	nseq := gen.Scale(4000, 150000)
+	nseq := gen.Scale(3000, 60000)
 	for i := 0; i < nseq; i++ {
 		if i%200 == 199 {
 			p = newPool(r) // fresh hex addresses
